@@ -111,9 +111,37 @@ def filter_dominates(ctx, res):
 # ---------------------------------------------------------------------------
 # C02.filters-agree
 
-def _abstract_run(fn, name, val, roles, functions=None, _depth=0):
+class _NeedAtom(Exception):
+    def __init__(self, text):
+        self.text = text
+
+
+def _abstract_runs(fn, name, val, roles, functions=None):
+    """All outcomes of a filter function under one abstract valuation: a
+    condition outside the modelled atoms is a *free* boolean (both truth
+    values are explored, at most 4 of them), so that a new test which changes
+    the decision shows up as a disagreement and one which does not is
+    harmless.  Returns a list of (outcome, {free atom: value})."""
+    out, work = [], [{}]
+    while work:
+        free = work.pop()
+        try:
+            out.append((_abstract_run(fn, name, val, roles, functions,
+                                      free=free), free))
+        except _NeedAtom as na:
+            if len(free) >= 4:
+                raise AnalysisError(f"{name}: more than 4 conditions outside "
+                                    f"the modelled atoms of the change "
+                                    f"filter (`{na.text}`)")
+            work.append(dict(free, **{na.text: True}))
+            work.append(dict(free, **{na.text: False}))
+    return out
+
+
+def _abstract_run(fn, name, val, roles, functions=None, _depth=0, free=None):
     """Walk the CFG of a filter function deterministically under one abstract
     valuation.  Returns ('RET', bool) or raises AnalysisError."""
+    free = {} if free is None else free
     g = build_cfg(fn, name)
     nid = g.entry.id
     steps = 0
@@ -183,6 +211,13 @@ def _abstract_run(fn, name, val, roles, functions=None, _depth=0):
                         or rt.endswith(".comparison_mode") \
                         and lt == "ComparisonMode.equality":
                     return val["mode_eq"]
+                # another member of the comparison-mode enumeration: excluded
+                # when the mode is equality, otherwise undetermined (free)
+                for a_, b_ in ((lt, rt), (rt, lt)):
+                    if a_.endswith(".comparison_mode") \
+                            and b_.startswith("ComparisonMode.") \
+                            and val["mode_eq"]:
+                        return False
         if isinstance(e, ast.UnaryOp) and isinstance(e.op, ast.Not):
             return not eval_bool(e.operand)
         if isinstance(e, ast.BoolOp):
@@ -198,9 +233,15 @@ def _abstract_run(fn, name, val, roles, functions=None, _depth=0):
             # a private predicate of the module: run it under the same
             # valuation (its atoms are matched by the same patterns)
             r_ = _abstract_run(functions[e.func.id], e.func.id, val, roles,
-                               functions, _depth + 1)
+                               functions, _depth + 1, free)
             if r_[0] == "RET":
                 return bool(r_[1])
+        if isinstance(e, (ast.Compare, ast.Call, ast.Name, ast.Attribute,
+                          ast.Subscript)):
+            t = norm(e)
+            if t not in free:
+                raise _NeedAtom(t)
+            return free[t]
         raise AnalysisError(f"{name}: condition `{norm(e)}` is outside the "
                             f"modelled atoms of the change filter")
 
@@ -282,22 +323,31 @@ def filters_agree(ctx, res):
     for ou, kt, me, cr, eq in itertools.product((False, True), repeat=5):
         val = dict(old_uninit=ou, kind_trait=kt, mode_eq=me, cmp_raises=cr,
                    equal=eq)
-        a = _abstract_run(fa, "_change_accepted", val, roles_a,
-                          repo.module(TN).functions)
-        p = _abstract_run(fp, "ctrait_prevent_event", val, roles_p,
-                          repo.module(HTH).functions)
+        as_ = _abstract_runs(fa, "_change_accepted", val, roles_a,
+                             repo.module(TN).functions)
+        ps_ = _abstract_runs(fp, "ctrait_prevent_event", val, roles_p,
+                             repo.module(HTH).functions)
         n += 1
-        accepted = bool(a[1]) if a[0] == "RET" else None
-        prevented = bool(p[1]) if p[0] == "RET" else None
         # reference decision (the documented comparison modes)
         if ou:
-            want = False
+            want0 = False
         elif kt and me and not cr:
-            want = not eq
+            want0 = not eq
         else:
-            want = True
+            want0 = True
+        # with free atoms: prefer an outcome that deviates (it is the witness)
+        a, afree = next(((o, f) for o, f in as_ if not (
+            o[0] == "RET" and bool(o[1]) == want0)), as_[0])
+        p, pfree = next(((o, f) for o, f in ps_ if not (
+            o[0] == "RET" and bool(o[1]) == (not want0))), ps_[0])
+        accepted = bool(a[1]) if a[0] == "RET" else None
+        prevented = bool(p[1]) if p[0] == "RET" else None
+        extra = "".join(f", `{t}`={v}" for t, v in
+                        sorted({**afree, **pfree}.items()))
+        want = want0
         desc = (f"old is Uninitialized={ou}, kind is 'trait'={kt}, "
-                f"mode equality={me}, == raises={cr}, old == new={eq}")
+                f"mode equality={me}, == raises={cr}, old == new={eq}"
+                f"{extra}")
         res.oblige(accepted is not None and prevented is not None
                    and accepted == (not prevented),
                    f"filters:{ou:d}{kt:d}{me:d}{cr:d}{eq:d}:agree",
